@@ -239,6 +239,28 @@ def run_case(case):
             if hasattr(lay, "n0"):
                 _check_exponential(v, lay, rng, *lay.valid_range)
             _check_atten(v, lay, rng, *lay.valid_range)
+    # ---- models without an inverse say so instead of returning a depth (documented: "invalid for uniform ice")
+    if kind in ("uniform", "layered"):
+        for arg in (1.5, np.array([1.4, 1.6])):
+            try:
+                got = ice.depth_with_index(arg)
+                v.check(False, "ice models whose index cannot be inverted refuse depth_with_index", kind=kind, returned=repr(got)[:80])
+            except NotImplementedError:
+                v.check(True, "ice models whose index cannot be inverted refuse depth_with_index")
+    # ---- declared outside indices can be re-declared on the used object and are honoured from then on
+    for new_above, new_below in ((1.23, 1.95), (None, None), (1.0, 2.1)):
+        ice.index_above, ice.index_below = new_above, new_below
+        top_n, bot_n = ice.index(float(hi)), ice.index(float(lo))
+        want_a = new_above if new_above is not None else top_n
+        want_b = new_below if new_below is not None else bot_n
+        got_a, got_b = np.asarray(ice.index(np.array([hi + 3.0, hi + 1e-9]))), np.asarray(ice.index(np.array([lo - 3.0, lo - 1e-6])))
+        v.check(ice.index_above == want_a and bool(np.all(got_a == want_a)) and ice.index(float(hi + 3.0)) == want_a, "a re-declared index_above is what the model reports above its range",
+                declared=new_above, reported=ice.index_above, index_above_range=[x if x is None else float(x) for x in got_a])
+        v.check(ice.index_below == want_b and bool(np.all(got_b == want_b)) and ice.index(float(lo - 3.0)) == want_b, "a re-declared index_below is what the model reports below its range",
+                declared=new_below, reported=ice.index_below, index_below_range=[x if x is None else float(x) for x in got_b])
+        if kind != "layered":
+            inside = float(0.5 * (lo + hi))
+            v.check(ice.index(inside) == ice.index(np.array([inside]))[0], "re-declaring the outside indices leaves the inside alone")
     sample = {"ice": case["ice"], "probe_depths": [float(z) for z in zs[:6]], "index": [x if x is None else float(x) for x in arr[:6]]}
     return v.result(decided=True, nontrivial=v.events > 40, sample=sample)
 
